@@ -53,7 +53,7 @@ func vArg(depth int) any {
 		if depth <= 0 {
 			return Group("g")
 		}
-		n := vChoose(3)
+		n := vChoose(vParam("gmembers", 2) + 1)
 		var as []any
 		for i := 0; i < n; i++ {
 			as = append(as, vArg(depth-1))
